@@ -2,6 +2,7 @@
 import Wf.Drv.Serde
 import Wf.Drv.Adapter
 import Wf.Drv.Fields
+import Wf.Drv.FieldCodec
 
 open Wf.Drv
 
@@ -10,6 +11,7 @@ def dispatch (line : String) : String :=
   | "c26" :: rest => handleSerde rest
   | "c27" :: rest => handleAdapter rest
   | "c10" :: rest => handleFields rest
+  | "c11" :: rest => handleCodec rest
   | _ => "bad-family"
 
 partial def loop (h : IO.FS.Stream) (out : IO.FS.Stream) : IO Unit := do
